@@ -23,7 +23,7 @@ RULE = (
     "A case is a generated tree (3-12 tips; in the thorough tier also caterpillars of 30-60 tips; rooted or unrooted, bi-/multifurcating; "
     "branch lengths dyadic, float in [0.001, 3], float in [1e-12, 1e12], a list whose repr uses exponent notation (1e-05 ... 1e+22), python ints, "
     "a per-tree power-of-ten scale, or a mixture; tip AND internal node names over letters plus space, underscore, quotes and newick "
-    "punctuation) and a composition of 1-4 operations drawn from newick round trips (escaped + underscore-unmunged, default, "
+    "punctuation, or over ASCII plus non-ASCII letters of 2 and 3 UTF-8 bytes) and a composition of 1-4 operations drawn from newick round trips (escaped + underscore-unmunged, default, "
     "with_node_names=True with/without semicolon, write(file)+load_tree for newick suffixes incl. .gz), JSON / rich-dict round trips "
     "(in memory and write(file.json[.gz])+load_tree), copy, deepcopy, unrooted, unrooted_deepcopy, rooted_at (any internal name), "
     "rooted_with_tip, root_at_midpoint, sorted, get_sub_tree (optionally ignore_missing=True with absent names and internal-node names), "
@@ -44,6 +44,7 @@ ASSUMPTIONS = [
     "an int branch length may come back as the equal float (newick text '3' -> 3.0)",
     "get_sub_tree is asked for at least two tips; with tipsonly=False an internal-node name in the list keeps that node's whole clade (pinned by tests/test_core/test_tree.py test_getsubtree_5), with tipsonly=True and ignore_missing=True it is ignored; absent names are only passed with ignore_missing=True; bifurcating() may add zero-length edges (topology refined, path lengths unchanged)",
     "a composition stops after the first failed step, when an edge lost its length, or when root_at_midpoint produced a non-positive length through rounding (possible only when lengths of one tree span > 15 orders of magnitude); internal-node names are only required to survive routes documented to write them: get_newick(with_node_names=True), to_rich_dict/to_json (edge attributes are keyed by name), copy/deepcopy",
+    "non-ASCII names are printable names: write(file)+load_tree must return them on a machine whose preferred encoding is UTF-8 (the writer uses the locale's encoding); failures of that route carry the circumstance tag newick_file[non-ascii]",
     "same_topology is only asserted for pairs of unrooted trees without single-child nodes (it re-roots both beside the first tip, which leaves a degree-2 node in a rooted tree); compare_by_subsets is 1 - 2|A&B|/(|A|+|B|) over the sets of clusters (1 when both are empty), as its code and tests define",
 ]
 
@@ -182,10 +183,14 @@ def _draw_name(draw, style, seen, idx, internal):
         key = nm.replace(" ", "_")
         unreadable = style == "fancy_readable" and (nm in UNREADABLE_SINGLE or nm.startswith("'"))
         if not nm or key in seen or (nm.startswith("'") and nm.endswith("'")) or nm.startswith("edge.") or nm == "root" or unreadable:
-            stem = f"{'m' if internal else 'n'}{idx}"
+            # replacement: '<m|n><idx>q' + up to two characters of the rejected draw ('q' ends the index, so
+            # replacements of different nodes cannot coincide; no alphabet contains m, n or q)
+            stem = f"{'m' if internal else 'n'}{idx}q"
             nm = stem + nm.replace("'", "q")[:2]
             if nm.replace(" ", "_") in seen or nm != nm.strip():
                 nm = stem
+    while nm.replace(" ", "_") in seen:
+        nm += "q"
     seen.add(nm.replace(" ", "_"))
     return nm
 
@@ -373,6 +378,10 @@ def exec_ops(case) -> Soft:
 
     s = Soft("C09/")
     model = case["tree"]
+    keys = [nm.replace(" ", "_") for nm in _case_names(case)]
+    if len(set(keys)) != len(keys):
+        s.cls("out-of-domain:duplicate-names")  # TreeBuilder would rename one of them (ASSUMPTIONS)
+        return s
     ok, tree = s.call("construct", to_real, model)
     if not ok:
         return s
@@ -432,6 +441,10 @@ def exec_ops(case) -> Soft:
         elif op == "newick_file":
             fn = via_file(NEWICK_SUFFIXES[step["a"] % len(NEWICK_SUFFIXES)], underscore_unmunge=True)
             if non_ascii:
+                import locale
+
+                if locale.getpreferredencoding(False).lower().replace("-", "") != "utf8":
+                    continue  # the writer uses the locale's encoding, which could not represent the names
                 sig = "newick_file[non-ascii]"  # own circumstance: the reader has to guess the text encoding
         elif op == "json":
             fn = lambda: deserialise_object(json.loads(tree.to_json()))  # noqa: E731
@@ -836,8 +849,8 @@ KNOWN_PREDICATES = {
 }
 
 META = {
-    "technique": "Hypothesis-generated trees and operation compositions against a nested-list tree model (tips, bipartitions, path-length matrix); tree distances against split/cluster sets and brute-force matching",
-    "level_text": "Thousands of generated trees (rooted/unrooted, polytomies, awkward names) per run are pushed through compositions of the listed transformations; after each step the result is read structurally and compared with the model for tips, bipartitions and every tip-to-tip path length, and the receiver is checked to be untouched. Tree-to-tree distances are checked for symmetry, identity of indiscernibles and against independent set computations (brute-force matching up to 8 tips).",
-    "level_note": "Trusts the harness tree model (about 100 lines). Exploration bounded to 12 tips and 4 operations per composition.",
+    "technique": "Hypothesis-generated trees and operation compositions against a nested-list tree model (tips, bipartitions, correctly rounded path-length matrix); tree distances, same_topology and compare_by_subsets against split/cluster sets and brute-force matching",
+    "level_text": "Thousands of generated trees (rooted/unrooted, polytomies, awkward and non-ASCII tip and internal-node names, branch lengths from ints over exponent-notation floats to 24 orders of magnitude within one tree) per run are pushed through compositions of the listed transformations, including round trips through newick / json files; after each step the result is read structurally and compared with the model for tips, bipartitions and every tip-to-tip path length (bit-identical where the operation does no arithmetic, relative 1e-12 otherwise), named internal nodes are looked up again, and the receiver is checked to be untouched. Tree-to-tree distances are checked for symmetry, identity of indiscernibles and against independent set computations (brute-force matching up to 8 tips); same_topology, lin_rajan_moret and compare_by_subsets are cross-checked with the same sets.",
+    "level_note": "Trusts the harness tree model (about 120 lines). Exploration bounded to 12 tips (ladders of 30-60 tips in 1/40 of the thorough-tier cases) and 4 operations per composition. XML output is not part of the statement and not exercised.",
     "design_ref": "DESIGN.md section 1, C09",
 }
